@@ -161,6 +161,15 @@ fn queue_file_range(
                 error!("{}", msg);
                 panic!("{}", msg);
             }
+            // Whoever holds the last reference finalises the file, so
+            // that a failure there is reported and not just logged.
+            if let Some(handle) = Arc::into_inner(harc) {
+                if let Err(e) = handle.finalise() {
+                    error!("Error finalising copy: aborting.");
+                    failed.store(true, Ordering::SeqCst);
+                    let _ = stat_tx.send(StatusUpdate::Error(XcpError::CopyError(e.to_string())));
+                }
+            }
         });
     }
     Ok(len)
@@ -179,6 +188,7 @@ fn queue_file_blocks(
 
     if handle.try_reflink()? {
         info!("Reflinked, skipping rest of copy");
+        handle.finalise()?;
         return Ok(len);
     }
 
@@ -192,20 +202,26 @@ fn queue_file_blocks(
         queue_file_range(&harc, 0..len, pool, status_channel, failed)
     };
 
-    if probably_sparse(&harc.infd)? {
+    let queued = if probably_sparse(&harc.infd)? {
         if let Some(extents) = map_extents(&harc.infd)? {
             let sparse_map = merge_extents(extents)?;
             let mut queued = 0;
             for ext in sparse_map {
                 queued += queue_file_range(&harc, ext.into(), pool, status_channel, failed)?;
             }
-            Ok(queued)
+            queued
         } else {
-            queue_whole_file()
+            queue_whole_file()?
         }
     } else {
-        queue_whole_file()
+        queue_whole_file()?
+    };
+
+    // All block jobs may already have finished (or there were none).
+    if let Some(handle) = Arc::into_inner(harc) {
+        handle.finalise()?;
     }
+    Ok(queued)
 }
 
 // Dispatch worker; receives queued files and hands them to
